@@ -376,6 +376,14 @@ def slot_objects(req, resp):
     return o
 
 
+def _safe_url():
+    """cherrypy.url() as application code sees it (mount point + path of the running request)."""
+    try:
+        return cherrypy.url()
+    except Exception as e:
+        return 'ERROR:' + type(e).__name__
+
+
 def slot_contents(req, resp):
     """Canonical contents of every per-request collection: what a request 'observes'."""
     body = getattr(req, 'body', None)
@@ -398,6 +406,7 @@ def slot_contents(req, resp):
         'respAttrs': sorted(vars(resp)),
         'reqScalars': {k: canon(getattr(req, k, 'ABSENT')) for k in REQ_SCALARS},
         'respScalars': {k: canon(getattr(resp, k, 'ABSENT')) for k in RESP_SCALARS},
+        'url': _safe_url(),
         'adhoc': {k: canon(v) for k, v in list(vars(req).items()) if k.startswith('c10_') or 'mk' in k.lower()},
         'respAdhoc': {k: canon(v) for k, v in list(vars(resp).items()) if k.startswith('c10_') or 'mk' in k.lower()},
     }
@@ -766,7 +775,16 @@ def make_node(kind_conf, cls_conf=None, default_conf=None):
 
     def redir(self, *a, **kw):
         run_stage('handler')
-        raise cherrypy.InternalRedirect(CUR.plan['redirect_to'], 'token=%s&via=redir' % CUR.plan['token'])
+        plan, rec = CUR.plan, CUR.rec
+        chain = plan.get('redirect_chain') or [plan.get('redirect_to') or '/']
+        k = rec.get('sub', 0)
+        if k >= len(chain):               # the end of the chain: answer like an index page
+            cherrypy.response.headers['X-Token'] = cherrypy.request.params.get('token', 'NONE')
+            return body_echo() + b';redir-end'
+        # a raw query string is passed on unchanged, so the URL of a sub-request can be byte-identical to the URL
+        # another request started from
+        qs = (plan.get('qs') or '') if plan.get('rawqs') else 'token=%s&via=redir' % plan['token']
+        raise cherrypy.InternalRedirect(chain[k], qs)
 
     def default(self, *a, **kw):
         run_stage('handler')
@@ -866,7 +884,8 @@ class Site(object):
                 root['log.c10_tag'] = ad['wsgi_tag']
             if ad.get('mw'):
                 root['wsgi.pipeline'] = [('c10mw', C10MW)]
-            app = _cptree.Application(nodes['/'], ad['script_name'])
+            # `sn_none`: the mount point comes from SCRIPT_NAME of every call (one Application object, several mounts)
+            app = _cptree.Application(nodes['/'], None if ad.get('sn_none') else ad['script_name'])
             if ad.get('reqclass'):
                 app.request_class = C10Request
             if ad.get('toolbox'):
@@ -1009,7 +1028,8 @@ def do_call(site, plan, park):
            'status': None, 'wsgi_headers': None, 'body': None, 'exc': None, 'serving_after': None,
            'default_after': None, 'faults_fired': [], 'idle_before': idle_state(), 'idle_after': None}
     CUR.plan, CUR.rec, CUR.park = plan, rec, park
-    env = make_environ(plan, app.script_name)
+    ad = site.desc['apps'][plan['app']]
+    env = make_environ(plan, plan.get('mount', ad['script_name']) if ad.get('sn_none') else ad['script_name'])
 
     def start_response(status, headers, exc_info=None):
         rec['status'] = status
@@ -1129,6 +1149,28 @@ def tree_state(root, seen=None):
     return out
 
 
+def pipeline_state(head, seen):
+    """The middleware instances an application's WSGI pipeline is made of (memoised in `wsgiapp.head` by the first
+    call): class and own attributes of each, following `nextapp`.  'unbuilt' before the first call."""
+    if head is None:
+        return 'unbuilt'
+    chain, cur, n = {}, head, 0
+    while cur is not None and n < 12:
+        n += 1
+        f = getattr(cur, '__func__', None)
+        if f is not None:                       # the bound `tail` method of the CPWSGIApp ends the chain
+            chain['%d method' % n] = getattr(f, '__name__', '?')
+            break
+        attrs = {}
+        for a, b in sorted(getattr(cur, '__dict__', {}).items()):
+            if a == 'nextapp':
+                continue
+            attrs[a] = _deep(b, seen, 2)
+        chain['%d %s' % (n, type(cur).__name__)] = attrs
+        cur = getattr(cur, 'nextapp', None)
+    return chain
+
+
 def deep_state(site, full=True):
     """name -> canonical contents of the long-lived state a request must leave alone.  `full=False`: only what hangs
     on the mounted trees and the applications, plus the global config (the classes / modules / default toolbox
@@ -1150,6 +1192,7 @@ def deep_state(site, full=True):
                 continue
             if k == 'wsgiapp':
                 av[k] = {a: _deep(b, seen, 2) for a, b in sorted(vars(x).items()) if a not in LAZY_ATTRS and a != 'cpapp'}
+                out['app%d pipeline' % i] = pipeline_state(getattr(x, 'head', None), seen)
             elif k == 'log':
                 av[k] = {a: _deep(b, seen, 2) for a, b in sorted(vars(x).items())
                          if isinstance(b, (str, int, bool, type(None))) and a != 'appid'}
